@@ -4,6 +4,7 @@ package main
 // dependencies; every entry used by a run is echoed into the evidence file.
 
 import (
+	"sort"
 	"fmt"
 	"go/types"
 	"strings"
@@ -110,6 +111,42 @@ func pureUF(name string) func(fr *Frame, st *State, c *ssa.CallCommon, args []Va
 		fr.defVal(res, t)
 		v.smt.assert(v.closedFactNoAlloc(fr.vals[res].T, rs.At(0).Type()))
 		return fr.vals[res]
+	}
+}
+
+// pureUFErr: (value, error) result; when the error is nil the value is an uninterpreted function
+// of the (value) arguments.
+func pureUFErr(name string) func(fr *Frame, st *State, c *ssa.CallCommon, args []Val, res ssa.Value) Val {
+	return func(fr *Frame, st *State, c *ssa.CallCommon, args []Val, res ssa.Value) Val {
+		v := fr.v
+		var ts, sorts []string
+		for i, a := range c.Args {
+			val := args[i]
+			at := a.Type()
+			if p, ok := at.Underlying().(*types.Pointer); ok && !isRefStruct(p.Elem()) {
+				ts = append(ts, v.loadPtr(st, val, p.Elem()))
+				sorts = append(sorts, v.smt.sortOf(p.Elem()))
+				continue
+			}
+			if val.Loc != nil {
+				ts = append(ts, v.loadLoc(st, val.Loc))
+				sorts = append(sorts, v.smt.sortOf(deref(at)))
+				continue
+			}
+			ts = append(ts, val.T)
+			sorts = append(sorts, v.smt.sortOf(at))
+		}
+		rs := c.Signature().Results()
+		if rs.Len() != 2 {
+			v.unsupported("pureUFErr %s with %d results", name, rs.Len())
+		}
+		out := fr.freshResult(st, c, res)
+		if res == nil {
+			return out
+		}
+		f := v.smt.declareFun(name, sorts, v.smt.sortOf(rs.At(0).Type()))
+		v.smt.assert(implies(eq(out.Tuple[1].T, "(mk-iface 0 0)"), eq(out.Tuple[0].T, app(f, ts...))))
+		return out
 	}
 }
 
@@ -368,7 +405,8 @@ func init() {
 		b := fr.term(st, c.Args[0])
 		rt := deref(c.Signature().Results().At(0).Type())
 		r := v.newRef(st, "newhash")
-		hv := v.smt.fresh("newhash.v", v.smt.sortOf(rt))
+		hf := v.smt.declareFun("uf!hash32Of", []string{"(Array Int Int)", "Int"}, v.smt.sortOf(rt))
+		hv := v.smt.define("newhash.v", v.smt.sortOf(rt), app(hf, sel(v.heap(st, v.elemKey(types.Typ[types.Uint8])), "(s.arr "+b+")"), "(s.off "+b+")"))
 		v.storePtr(st, Val{T: r}, rt, hv)
 		errT := v.smt.fresh("newhash.err", "Iface")
 		v.smt.assert(v.closedFact(errT, types.Universe.Lookup("error").Type(), v.alloc(st), 0))
@@ -377,6 +415,143 @@ func init() {
 		out := Val{Tuple: []Val{{T: ptr}, {T: errT}}}
 		fr.setResult(res, out)
 		return out
+	})
+}
+
+func init() {
+	reg("(github.com/tokenized/pkg/bitcoin.PublicKey).Equal", "uninterpreted equality predicate on public keys", nil, pureUF("uf!PublicKeyEqual"))
+	reg("(github.com/tokenized/pkg/bitcoin.Signature).Verify", "uninterpreted: Verify(sig, hash, key)", nil, pureUF("uf!SigVerify"))
+	reg("(*github.com/tokenized/pkg/bitcoin.Signature).Verify", "uninterpreted: Verify(sig, hash, key)", nil, pureUF("uf!SigVerify"))
+	reg("time.After", "a channel (opaque)", nil, pureOpaque)
+	reg("(*net.Dialer).DialContext", "network: returns an unconstrained (connection, error); writes nothing in the modelled heap", nil, pureOpaque)
+	regInvoke("net.Conn.Close", "network: unconstrained error; writes nothing in the modelled heap", nil, pureOpaque)
+	reg("github.com/tokenized/pkg/bitcoin.NextPublicKey", "when it succeeds: an uninterpreted function NextPublicKey(base, hash)", nil, pureUFErr("uf!NextPublicKey"))
+	reg("github.com/tokenized/pkg/bitcoin.NextKey", "when it succeeds: an uninterpreted function NextKey(base, hash)", nil, pureUFErr("uf!NextKey"))
+	reg("(github.com/tokenized/pkg/bitcoin.Key).Sign", "when it succeeds: an uninterpreted function Sign(key, hash)", nil, pureUFErr("uf!SignOf"))
+	reg("(github.com/tokenized/pkg/bitcoin.Key).PublicKey", "an uninterpreted function PublicKey(key)", nil, pureUF("uf!PublicKeyOf"))
+	reg("github.com/tokenized/pkg/bitcoin.GenerateSeedValue", "a new random value: Seed(n) for the n-th value generated (ghost counter nseed)",
+		func(ms *ModSet, c *ssa.CallCommon) { ms.add(KeyInfo{Key: "GH!nseed", Ghost: "Int"}) },
+		func(fr *Frame, st *State, c *ssa.CallCommon, args []Val, res ssa.Value) Val {
+			v := fr.v
+			k := v.ghostKey("nseed", "Int")
+			n := v.heap(st, k)
+			out := fr.freshResult(st, c, res)
+			v.setHeap(st, k, "(+ 1 "+n+")")
+			if res != nil {
+				f := v.smt.declareFun("uf!SeedAt", []string{"Int"}, v.smt.sortOf(c.Signature().Results().At(0).Type()))
+				v.smt.assert(implies(eq(out.Tuple[1].T, "(mk-iface 0 0)"), eq(out.Tuple[0].T, app(f, n))))
+			}
+			return out
+		})
+	regInvoke("github.com/tokenized/spynode/pkg/client.MessagePayload.Type", "pure: type code of the payload's dynamic type (uninterpreted function of the value); for every payload type whose Type method is `return <constant>` the constant is read from the method body", nil,
+		func(fr *Frame, st *State, c *ssa.CallCommon, args []Val, res ssa.Value) Val {
+			fr.v.payloadTypeAxioms()
+			return pureUF("uf!PayloadType")(fr, st, c, args, res)
+		})
+}
+
+// payloadTypeAxioms: for each type of package client whose method Type() uint64 consists of
+// `return <constant>`, PayloadType(x) == constant for every interface value x holding that type.
+func (v *FnVerifier) payloadTypeAxioms() {
+	if v.payloadAx {
+		return
+	}
+	v.payloadAx = true
+	pkg := v.eng.spkgs[pkgClient]
+	if pkg == nil {
+		return
+	}
+	f := v.smt.declareFun("uf!PayloadType", []string{"Iface"}, "Int")
+	var names []string
+	for n := range pkg.Members {
+		names = append(names, n)
+	}
+	sort.Strings(names)
+	for _, n := range names {
+		tn, ok := pkg.Members[n].(*ssa.Type)
+		if !ok {
+			continue
+		}
+		for _, t := range []types.Type{tn.Type(), types.NewPointer(tn.Type())} {
+			ms := v.eng.prog.MethodSets.MethodSet(t)
+			sel := ms.Lookup(pkg.Pkg, "Type")
+			if sel == nil {
+				continue
+			}
+			fn := v.eng.prog.MethodValue(sel)
+			if fn == nil {
+				continue
+			}
+			// a pointer-receiver wrapper of a value method: look through to the declared method
+			decl := fn
+			if fn.Synthetic != "" {
+				if o, ok := sel.Obj().(*types.Func); ok {
+					decl = v.eng.prog.FuncValue(o)
+				}
+			}
+			if decl == nil || len(decl.Blocks) != 1 {
+				continue
+			}
+			var cst *ssa.Const
+			for _, in := range decl.Blocks[0].Instrs {
+				switch x := in.(type) {
+				case *ssa.DebugRef:
+				case *ssa.Return:
+					if len(x.Results) == 1 {
+						cst, _ = x.Results[0].(*ssa.Const)
+					}
+				default:
+					cst = nil
+					goto next
+				}
+			}
+			if cst != nil && cst.Value != nil {
+				v.smt.axiom(fmt.Sprintf("(forall ((x Iface)) (! (=> (= (i.tag x) %d) (= (%s x) %s)) :pattern ((%s x))))", v.typeTag(t), f, cst.Value.ExactString(), f))
+			}
+		next:
+		}
+	}
+}
+
+// atomic.Value: a ghost cell per (struct field, object).
+func (v *FnVerifier) atomicKey(l *Loc) (string, bool) {
+	if l == nil || len(l.idx) != 1 || len(l.path) != 0 {
+		return "", false
+	}
+	return v.ghostKey("atomic!"+strings.TrimPrefix(l.key, "F!"), "(Array Int Iface)"), true
+}
+
+func init() {
+	avMods := func(ms *ModSet, c *ssa.CallCommon) {
+		if c != nil {
+			if fa, ok := c.Args[0].(*ssa.FieldAddr); ok {
+				bt := deref(fa.X.Type())
+				if _, st := namedStruct(bt); st != nil {
+					ms.add(KeyInfo{Key: "GH!atomic!" + strings.TrimPrefix(fieldKeyName(bt, st, fa.Field), "F!"), Ghost: "(Array Int Iface)"})
+					return
+				}
+			}
+		}
+		ms.add(KeyInfo{Key: "GH!atomic!unknown", Ghost: "(Array Int Iface)"})
+	}
+	reg("(*sync/atomic.Value).Load", "atomic cell: returns the value last stored (a ghost cell per struct field and object)", nil, func(fr *Frame, st *State, c *ssa.CallCommon, args []Val, res ssa.Value) Val {
+		v := fr.v
+		k, ok := v.atomicKey(args[0].Loc)
+		if !ok {
+			return pureOpaque(fr, st, c, args, res)
+		}
+		fr.defVal(res, sel(v.heap(st, k), args[0].Loc.idx[0]))
+		v.smt.assert(v.closedFact(fr.vals[res].T, c.Signature().Results().At(0).Type(), v.alloc(st), 0))
+		return fr.vals[res]
+	})
+	reg("(*sync/atomic.Value).Store", "atomic cell: stores the value", avMods, func(fr *Frame, st *State, c *ssa.CallCommon, args []Val, res ssa.Value) Val {
+		v := fr.v
+		k, ok := v.atomicKey(args[0].Loc)
+		if !ok {
+			v.unsupported("atomic.Value.Store on something that is not a struct field")
+		}
+		v.setHeap(st, k, sto(v.heap(st, k), args[0].Loc.idx[0], fr.term(st, c.Args[1])))
+		return Val{}
 	})
 }
 
